@@ -869,10 +869,15 @@ func (p *Prog) regexSameInputs(out *RuleOut, flagsT *types.Named) {
 	}
 	// the compiler: every MustCompile argument is built from loads of the same two fields
 	compiles := 0
-	for _, b := range comp.Blocks {
-		for _, ins := range b.Instrs {
-			if c, ok := ins.(*ssa.Call); ok && calleeQualified(&c.Call) == "regexp.MustCompile" {
-				compiles++
+	for _, cf := range moduleFuncs(p.reachFrom([]*ssa.Function{comp}).Set) {
+		if fnPkgPath(cf) != pkgAST {
+			continue
+		}
+		for _, b := range cf.Blocks {
+			for _, ins := range b.Instrs {
+				if c, ok := ins.(*ssa.Call); ok && calleeQualified(&c.Call) == "regexp.MustCompile" {
+					compiles++
+				}
 			}
 		}
 	}
